@@ -61,6 +61,17 @@ func coResume(L *LState) int {
 		L.Push(LString(msg))
 		return 2
 	}
+	if th.stack.IsEmpty() {
+		// the body ended with `return coroutine.yield(...)`: the values
+		// given to this resume are the results of that yield and so the
+		// results of the body, which thereby finishes
+		th.kill()
+		if th.wrapped {
+			return L.GetTop() - 1
+		}
+		L.Insert(LTrue, 2)
+		return L.GetTop() - 1
+	}
 	th.Parent = L
 	L.G.CurrentThread = th
 	if !th.isStarted() {
